@@ -296,6 +296,11 @@ func c09GenCalls(r *Rng, s c09Set, n int, salt int) []c09Call {
 			calls = append(calls, c09Call{Kind: "New.Fill.RenderString", Tpl: tpl, Idx: idx})
 		default:
 			tpl := fmt.Sprintf(`<i>{{ site }} {{ counter * %d }} {{ user.profile.zip - %d }}</i><div v-once>{{ site }}</div>`, idx, idx)
+			if i%3 == 2 {
+				// a request that fails in the middle of a text node and of an attribute value, after part of it was written:
+				// nothing of it may surface in anybody else's output
+				tpl = fmt.Sprintf(`<p title="LEAK-ATTR-%d-{{ user.name }}-{{ user.name | nosuchfilter%d }}">x</p><p>LEAK-TEXT-%d-{{ site }}-{{ counter | nosuchfilter%d }}</p>`, idx, idx, idx, idx)
+			}
 			calls = append(calls, c09Call{Kind: "base.RenderString", Tpl: tpl, Idx: idx})
 		}
 	}
